@@ -72,6 +72,8 @@ struct Cfg {
     int mid_x_def = 0, vol_def = 100;
     int enable_placement = 0;   // 0 none, 1 "leaf/" enabled by sibling "en", 2 "leaf/" enabled by "leaf/on"
     bool has_many = true, has_ptr = true, has_top = true;
+    std::string en_name = "en";   // name of Mid's toggle: "en", or one that starts with the name of the sub-tree it enables ("leaf_on", "leafen")
+    bool ptr_gated = false;       // "ptr/" (a pointer member) additionally carries rEnabledBy(<en_name>)
     std::deque<std::string> keep;   // metadata storage
 };
 static Cfg *G = nullptr;
@@ -124,7 +126,7 @@ static inline std::string diff_root(const Root &x, const Root &y, const Cfg &c)
 {
     std::string d;
     if(x.vol != y.vol) d += vh::fmt("/vol %d!=%d ", x.vol, y.vol);
-    if(x.mid.en != y.mid.en) d += vh::fmt("/mid/en %d!=%d ", x.mid.en, y.mid.en);
+    if(x.mid.en != y.mid.en) d += vh::fmt("/mid/%s %d!=%d ", c.en_name.c_str(), x.mid.en, y.mid.en);
     if(x.mid.x != y.mid.x) d += vh::fmt("/mid/x %d!=%d ", x.mid.x, y.mid.x);
     d += diff_leaf(x.mid.leaf, y.mid.leaf, c.leaf, "/mid/leaf/");
     if(c.has_many) for(int i = 0; i < 3; ++i) d += diff_leaf(x.mid.many[i], y.mid.many[i], c.leaf, vh::fmt("/mid/many%d/", i));
@@ -270,11 +272,11 @@ static inline void build(Cfg &c, Rng &r)
     for(size_t i = morder.size(); i > 1; --i) std::swap(morder[i - 1], morder[r.below(i)]);
     for(auto &n : morder) {
         Meta m;
-        if(n == "en") { m.prop("parameter").map("default", c.mid_en_def ? "true" : "false"); mp.push_back({"en::T:F", keep(m.m), 0, mid_en_cb}); }
+        if(n == "en") { m.prop("parameter").map("default", c.mid_en_def ? "true" : "false"); mp.push_back({keep(c.en_name + "::T:F"), keep(m.m), 0, mid_en_cb}); }
         else if(n == "x") { m.prop("parameter").map("default", std::to_string(c.mid_x_def)); mp.push_back({"x::i", keep(m.m), 0, CB_x}); }
-        else if(n == "leaf") { if(c.enable_placement == 1) m.map("enabled by", "en"); m.map("documentation", "leaf"); mp.push_back({"leaf/", keep(m.m), &Leaf::ports, CB_leaf}); }
+        else if(n == "leaf") { if(c.enable_placement == 1) m.map("enabled by", c.en_name); m.map("documentation", "leaf"); mp.push_back({"leaf/", keep(m.m), &Leaf::ports, CB_leaf}); }
         else if(n == "many") { m.map("documentation", "many"); mp.push_back({"many#3/", keep(m.m), &Leaf::ports, CB_many}); }
-        else if(n == "ptr") { m.map("documentation", "ptr"); mp.push_back({"ptr/", keep(m.m), &Leaf::ports, CB_ptr}); }
+        else if(n == "ptr") { if(c.ptr_gated) m.map("enabled by", c.en_name); m.map("documentation", "ptr"); mp.push_back({"ptr/", keep(m.m), &Leaf::ports, CB_ptr}); }
     }
     Mid::ports.set(mp);
     std::vector<rtosc::Port> rp;
@@ -320,6 +322,8 @@ static inline void gen_cfg(Cfg &c, Rng &r)
     c.mid_x_def = (int)r.range(-5, 5); c.vol_def = (int)r.range(0, 127);
     c.enable_placement = (int)r.below(3);
     c.has_many = r.chance(0.7); c.has_ptr = r.chance(0.5); c.has_top = r.chance(0.6);
+    { static const char *EN[] = {"en", "en", "en", "leaf_on", "leafen"}; c.en_name = EN[r.below(5)]; }
+    c.ptr_gated = c.has_ptr && r.chance(0.4);
 }
 
 } // namespace zoo
